@@ -905,6 +905,7 @@ pub struct FnSpec {
     pub r4result: HashSet<String>,
     pub attrs: Vec<String>,
     pub tail: Option<String>,
+    pub head: Option<String>,
     pub drops: Vec<(usize, String)>,
     pub open: Vec<String>,
     pub guards: bool,
@@ -1213,6 +1214,12 @@ impl<'a> Ctx<'a> {
                 let r: Vec<String> = fs.open.iter().map(|x| format!("reveal({x});")).collect();
                 edits.push(ins(block.start + 1, format!("\n        proof {{ {} }}", r.join(" "))));
             }
+            if let Some(h) = &fs.head {
+                // ghost code at the start of the body (R7), after the reveals
+                check_ghost_only(&fs.path, h)?;
+                self.cnt.bump("R7_hint");
+                edits.push(ins(block.start + 1, format!("\n        {}", h.trim_end())));
+            }
             for (k, anchor) in &fs.drops {
                 // R11: a debug-only statement Verus cannot express (e.g. a debug_assert! whose condition calls
                 // allocating exec functions) is dropped; every dropped statement is listed in the map
@@ -1469,6 +1476,7 @@ impl<'a> Gen<'a> {
                             Closure(usize),
                             Anchor(usize),
                             Tail,
+                            Head,
                         }
                         let mut cur = Cur::None;
                         let mut ended = false;
@@ -1487,6 +1495,10 @@ impl<'a> Gen<'a> {
                                     "tail" => {
                                         fs.tail = Some(String::new());
                                         cur = Cur::Tail;
+                                    }
+                                    "head" => {
+                                        fs.head = Some(String::new());
+                                        cur = Cur::Head;
                                     }
                                     "attr" => fs.attrs.push(d.trim_start().strip_prefix("attr").unwrap_or("").trim().to_string()),
                                     "r4result" => {
@@ -1542,6 +1554,7 @@ impl<'a> Gen<'a> {
                                     Cur::Closure(k) => Some(&mut fs.closures[k].2),
                                     Cur::Anchor(k) => Some(&mut fs.anchors[k].3),
                                     Cur::Tail => fs.tail.as_mut(),
+                                    Cur::Head => fs.head.as_mut(),
                                 };
                                 if let Some(tg) = target {
                                     tg.push_str(l);
